@@ -25,7 +25,7 @@ PLAN["C18"] = {
     "rule": ("rapid state-machine histories of Update(index,value) on poseidon_tree at depth 1..32 (weighted to 1,2,3,8,20,31,32; "
              "indices from first/last/previously-used/neighbour/far-apart/uniform; values 0, previous, r-1, small, random); after every "
              "step root, returned path, and both authentications are compared with an independent sparse tree recomputed from its leaves "
-             "(dense recomputation for depth<=8). Non-trivial = history that overwrites an index, writes 0 over a non-zero leaf, or touches "
+             "(dense recomputation for depth<=8); equal values are passed as one re-used big.Int object and must not be written through; every returned path is kept (the slice itself, beside a deep copy) and must be unchanged after every later update, as gen-test-params keeps them. Non-trivial = history that overwrites an index, writes 0 over a non-zero leaf, or touches "
              "two distinct leaves (hence both children of some internal node); distinct = SHA-1 of the canonical case."),
     "assumptions": A_COMMON,
     "technique": "model-based property testing (rapid state machine vs. independent sparse Merkle tree)",
